@@ -6,6 +6,10 @@ impl QueuedProposal {
     #[verifier::external_body] pub fn proposal(&self) -> (r: &Proposal) ensures *r == self.prop() { unimplemented!() }
     #[verifier::external_body] pub fn sender(&self) -> (r: &Sender) ensures *r == self.snd() { unimplemented!() }
 }
+impl StagedCommit {
+    // every proposal the commit covers (inline and by reference), in order
+    pub uninterp spec fn qps(&self) -> Seq<QueuedProposal>;
+}
 impl RemoveProposal {
     pub uninterp spec fn rm(&self) -> LeafNodeIndex;
     #[verifier::external_body] pub fn removed(&self) -> (r: LeafNodeIndex) ensures r == self.rm() { unimplemented!() }
